@@ -1148,7 +1148,7 @@ func (r *Resolver) answer(ctx context.Context, req, resp *dns.Msg, parentDS []dn
 				// answered authoritatively (no referral crossed). Accept
 				// the unsigned data only if an insecure delegation between
 				// zone and qname is cryptographically proven.
-				if !r.provenInsecureDelegation(ctx, zone, q.Name, parentDS) {
+				if !r.provenInsecureDelegation(ctx, zone, delegationSideName(q), parentDS) {
 					zlog.Warn("DNSSEC verify failed (answer)", "query", dnsutil.FormatQuestion(q), "error", dnssec.ErrNoSignatures.Error())
 					return nil, dnssec.ErrNoSignatures
 				}
@@ -1329,7 +1329,7 @@ func (r *Resolver) authority(ctx context.Context, req, resp *dns.Msg, parentDS [
 				// only acceptable when qname sits under a proven insecure
 				// delegation below the signed zone we queried (the same
 				// shared-authority, no-referral case).
-				if !r.provenInsecureDelegation(ctx, zone, q.Name, parentDS) {
+				if !r.provenInsecureDelegation(ctx, zone, delegationSideName(q), parentDS) {
 					err := dnssec.ErrNoSignatures
 					zlog.Warn("DNSSEC verify failed (NXDOMAIN)", "query", dnsutil.FormatQuestion(q), "error", err.Error())
 					return nil, err
@@ -2709,6 +2709,23 @@ func (r *Resolver) provenInsecureDelegation(ctx context.Context, zone, qname str
 		return false
 	}
 	return false
+}
+
+// delegationSideName is the name whose position relative to the zone cuts
+// decides which zone answers q. For every type but DS that is the query name.
+// A DS RRset, and the proof that there is none, belongs to the PARENT side of
+// the cut (RFC 4035 2.4): asked for child/DS, an insecure delegation AT child
+// says nothing about the parent's answer, which is signed data of the parent
+// zone. Walking down to child itself read "child is an insecure delegation"
+// as "this unsigned response is fine", so a forged or stripped answer to a DS
+// question about an unsigned child of a signed zone was accepted.
+func delegationSideName(q dns.Question) string {
+	if q.Qtype == dns.TypeDS {
+		if off, end := dns.NextLabel(q.Name, 0); !end {
+			return q.Name[off:]
+		}
+	}
+	return q.Name
 }
 
 // authenticatedDelegationDS returns the authenticated DS RRset for child, or
